@@ -129,11 +129,18 @@ class KGOp:
         self.a = a
         self.arity = arity
 
+    def __repr__(self):
+        # no object address: the text ends up in names when an operator stands where a symbol is expected
+        return f"KGOp({self.a!r}, {self.arity})"
+
 
 class KGAdverb:
     def __init__(self, a, arity):
         self.a = a
         self.arity = arity
+
+    def __repr__(self):
+        return f"KGAdverb({self.a!r}, {self.arity})"
 
 
 class KGChar(str):
